@@ -185,6 +185,21 @@ class Builder:
             if key not in self.foreign:
                 self.foreign[key] = copy.copy(M[t["n"]])
             return self.foreign[key]
+        if t["owner"] == "displaced":
+            # a signal this module USED to own: its name has since been bound to another signal (m.s = Signal(); old = m.s; m.s = Signal())
+            import copy
+            key = ("displaced", t["n"], id(M))
+            if key not in self.foreign:
+                was = M[t["n"]]
+                owner = getattr(was, "_parent_module", None)
+                if owner is not None:
+                    now = copy.copy(was)
+                    owner.add(now)
+                    M[t["n"]] = now
+                else:
+                    was = copy.copy(was)          # (class-style bodies have no module yet: a never-added copy stands in)
+                self.foreign[key] = was
+            return self.foreign[key]
         key = (t["owner"], t["n"])
         if t["owner"].startswith("design:"):
             # a signal of another module of this very design
